@@ -770,7 +770,10 @@ fn push_prefix(
     let mut child = None;
     if let Some(node) = node {
         for it in &mut node.children {
-            if it.label == *label {
+            /* A compression pointer holds a 14 bit offset: names first written at or beyond
+             * offset 0x4000 can not be pointed at, so they must not be found here.
+             */
+            if it.label == *label && it.data < 0x4000 {
                 child = Some(&mut *it);
             }
         }
